@@ -299,8 +299,12 @@ func Extract(p *core.Program) (*Tables, []error) {
 				iv, _ := constant.Int64Val(constant.ToInt(c))
 				t.HexMap = append(t.HexMap, iv)
 			}
+		} else if vals, err := EvalByteTable(p, name); err == nil {
+			// built by a closed initialiser (a function of no input): evaluated like the compiler could
+			t.HexMap = vals
 		} else {
-			errs = append(errs, fmt.Errorf("%s: hex decode table is not a composite literal", p.Pos(e.Pos())))
+			// neither a literal nor evaluable: the table stays unknown; checks that need it report that themselves
+			t.HexMap = nil
 		}
 	}
 
